@@ -281,6 +281,7 @@ def work(shard, tier):
             if o[0] == 'ok' and isinstance(o[1], str):
                 pairs.append((o[1], x))
         extra = C.synth_valid(name, n, rng, base=base) + C.synth_alphabet(name, rng, k=2) + C.synth_digits_only(name, rng, k=3)
+        extra += C.synth_field_extremes(name, rng, k=1 if tier == 'quick' else 3, raw=False, cap=150 if tier == 'quick' else 2000)[:200 if tier == 'quick' else 3000]
         if 'split' in getters:
             extra += C.synth_boundaries(name, rng, k=2 if tier == 'quick' else 6)
         reg = registry_witnesses(name, mod, rng, 8 if tier == 'quick' else 300)
